@@ -292,29 +292,36 @@ ALL = ['C%02d' % i for i in range(1, 21)]
 # id -> (technique addition, level-text addition)
 EXTRA = {
     'C02': ('capacity provenance of the vote counter; provenance of the '
-            'label list indexed by the ranking',
+            'label list indexed by the ranking; None-test guard of the '
+            'correlation inheritance; zip lock-step',
             'Also decides: the integer type of the vote counter is sized '
             'from the iteration count of the loop that increments it; the '
             'label list the ranking is translated with is the caller\'s or '
-            'the one returned with the aggregated votes.'),
+            'the one returned with the aggregated votes; the average '
+            'correlation of a voted level is replaced only under an `is '
+            'None` test; neighbour and correlation lists are zipped in '
+            'lock-step.'),
     'C04': ('shared random stream modelled as an order-sensitive '
             'accumulator',
             'Also: a draw from a shared generator inside a loop whose '
             'visiting order carries an order label yields a labelled '
-            'value; key order of nested dicts is tracked.'),
+            'value; key order of nested dicts is tracked; numeric '
+            'accumulation in a labelled visiting order (also inside a '
+            'callee, also through lists of lists) is a labelled value.'),
     'C05': ('write-cursor discipline, loop-coverage must-pass, exact '
             'tiling of chunked loops, index-space typing of numpy code',
             'Also decides: write cursors of the assembly loops are used, '
             'advanced and recorded in every iteration; chunked loops tile '
             'their axis (window = step, clamp = bound, step and bound on '
             'the same axis); in the transposition, slices and gathers are '
-            'applied in the index space they were computed in.'),
+            'applied in the index space they were computed in; pointer '
+            'values are never scatter positions.'),
     'C07': ('ordering-key provenance; column-gather detection on symbolic '
             'terms',
             'Also decides: no ordering step on the way to the per-parent '
             'index arrays of the marker cache depends on query positions; '
             'the array normalised in the chunk loops has not been cut by '
-            'column.'),
+            'column; the CPM divisor replaces zero totals only.'),
     'C08': ('iteration-order provenance of the in-place patching loop',
             'Also decides: parents are patched deepest first; the '
             'unknown-to-reference test is made on the unfiltered marker '
@@ -323,10 +330,14 @@ EXTRA = {
             'exact tiling',
             'Also decides: every chunk reaches _process_chunk; merged '
             'tables start from zeros; files are compared by gene sequence '
-            'before column-wise addition; chunk windows tile the rows.'),
+            'before column-wise addition; chunk windows tile the rows; '
+            'per-file state of a worker is refreshed on a test of the '
+            'file.'),
     'C10': ('loop-coverage must-pass in the tree builder',
             'Also decides: the builder records every parent-child link of '
-            'every row before validation (no early exit).'),
+            'every row before validation (no early exit); tables filled '
+            'in loops over the levels are keyed by (level, label); memo '
+            'keys are complete; zipped lists are in lock-step.'),
     'C13': ('write-cursor discipline, index-space typing, exact tiling',
             'Also decides: cursor discipline of the join / amalgamation '
             'loops, index spaces of the transposition, tiling of all '
@@ -334,14 +345,16 @@ EXTRA = {
     'C15': ('producer/consumer agreement of CSV column names, '
             'loop-coverage',
             'Also decides: the confidence-column rename spells names as '
-            'blob_to_df builds them; every cell gets a CSV row.'),
+            'blob_to_df builds them; every cell gets a CSV row; name '
+            'lookups are keyed by (level, label).'),
     'C16': ('exact tiling of the scanning loops, lookup provenance',
             'Also decides: min/max, integrality and rounding scans tile '
             'their matrix exactly; gene identifiers are looked up as '
             'given and clipped afterwards.'),
     'C17': ('back-fill provenance (shared with C01)',
             'Also decides: the dropped level is back-filled through the '
-            'parent table of that level.'),
+            'parent table of that level; node tables are keyed by (level, '
+            'label); zipped lists are in lock-step.'),
     'C18': ('sign analysis of cell-count denominators; merge rules shared '
             'with C09',
             'Also decides: no division by a possibly-zero cell count; '
